@@ -242,6 +242,10 @@ pub fn count(f: impl Fn(&Ev) -> bool) -> usize {
     LOG.lock().unwrap_or_else(|e| e.into_inner()).iter().filter(|e| f(e)).count()
 }
 
+pub fn with<R>(f: impl FnOnce(&[Ev]) -> R) -> R {
+    f(&LOG.lock().unwrap_or_else(|e| e.into_inner()))
+}
+
 pub fn len() -> usize {
     LOG.lock().unwrap_or_else(|e| e.into_inner()).len()
 }
